@@ -10,3 +10,9 @@ CARGO_NET_OFFLINE=true CARGO_TARGET_DIR="$DIR/build/rs-target" PYO3_PYTHON=/venv
 cp "$DIR/build/rs-target/release/libsedpack_rs.so" "$DIR/build/ext/_sedpack_rs.so.new"
 mv "$DIR/build/ext/_sedpack_rs.so.new" "$DIR/build/ext/_sedpack_rs.cpython-312-x86_64-linux-gnu.so"
 echo "rust extension built"
+# the gate-controlled parallel_map harness (path dependency on $REPO/rust)
+cd "$DIR/rust_harness"
+cp "$REPO/rust/Cargo.lock" Cargo.lock 2>/dev/null || true
+CARGO_NET_OFFLINE=true CARGO_TARGET_DIR="$DIR/build/rh-target" PYO3_PYTHON=/venv/bin/python \
+  cargo build --release --offline >"$DIR/build/cargo_harness.log" 2>&1 || { cat "$DIR/build/cargo_harness.log"; exit 1; }
+echo "rust harness built"
